@@ -10,47 +10,64 @@ import lib_topo as T
 
 ID = "C09"
 GENERATORS = [rules.generate]
-LEAN_MODULES = ["FimVerif.Proofs.C09", "FimVerif.Drivers.TopoRun"]
+LEAN_MODULES = ["FimVerif.Proofs.C09", "FimVerif.Drivers.TopoRun"]      # Drivers/C09.lean (interpreted) imports both
 P = "FimVerif.C09."
 THEOREMS = [P + t for t in (
     "atomic_addGNode", "atomic_nodeNew", "atomic_addNode", "atomic_setProps", "atomic_unsetProp", "atomic_rename",
     "atomic_ifaceNew_orphan", "atomic_ifaceNew", "atomic_addInterface", "atomic_linkNew", "atomic_addLink",
     "atomic_connectInterface", "atomic_connectInterface_bogus", "atomic_addNetworkService", "atomic_nodeAddService", "atomic_addComponent", "atomic_addStorage", "atomic_disconnectInterface", "atomic_removeInterface",
-    "atomic_op", "addComponent_counterexample")]
+    "atomic_addFacility", "atomic_addSwitch", "atomic_removeLink", "atomic_removeNode", "atomic_removeFacility", "atomic_removeSwitch",
+    "atomic_removeService", "atomic_nodeRemoveService", "atomic_removeComponent",
+    "atomic_op", "addComponent_counterexample",
+    "atomic_addChildInterface", "atomic_addPortMirror", "atomic_addComponentMT", "atomic_removeChildInterface", "atomic_peer",
+    "atomic_unpeer", "atomic_xop")] + [
+    "FimVerif.Topo." + t for t in (
+    "removeCpAndLinks_spec", "removeNs_spec", "removeCompGraph_spec", "removeNodeGraph_spec", "detachAll_spec", "removeNodeGraph_fac")]
 TRUSTED_BASE = [
     "Model/Topo.lean mirrors by hand the control flow of fim/user/{topology,node,component,network_service,interface,link}.py and the "
     "add_*/remove_* sliver functions of abc_property_graph.py over NetworkXPropertyGraph primitives; checked differentially on every call "
-    "of generated histories (outcome, exception kind, returned id, handle cache, whole-model snapshot)",
+    "of generated histories (outcome, exception kind, returned id, handle cache(s), whole-model snapshot)",
     "sliver-side validation and sliver->graph property encoding of keyword properties are taken from the implementation's pure sliver "
-    "code (C02/C16 cover them): the model receives per keyword 'accepted as these graph properties' or 'rejected with this kind'",
-    "gen/rules.py: component catalogue (with what generate_component derives), service/link layers, NO_UNSET_PROPERTIES, the exception "
-    "type selected by the rollback handler of NetworkService.__init__, the position of `iindex = 0` in add_facility, a behaviour probe "
-    "of add_node's id check",
+    "code (C02/C16 cover them): the model receives per keyword 'accepted as these graph properties' or 'rejected with this kind'; for "
+    "add_child_interface also the vlan of each Labels text in the graph (decoded by the real codec) and the labels after the call "
+    "copied the parent's local_name into them",
+    "gen/rules.py: component catalogue (with what generate_component derives), service/link layers, NO_UNSET_PROPERTIES, and one flag per "
+    "repaired idiom read off the AST: exception type selected by the rollback handler of NetworkService.__init__, position of `iindex = 0` "
+    "in add_facility, try/except of add_facility/add_switch, validate-before-create in the two attach functions, name pre-check of "
+    "connect_interface, try/except clean-up of peer, the node_exists skip in _disconnect_interfaces; a behaviour probe of add_node's id check",
     "uuid4 freshness: generated ids are modelled as a counter disjoint from caller-supplied ids",
     "set iteration order (lists of neighbours) is canonicalised by sorting before comparison",
-    "Topo.step / TopoOp (the alphabet atomic_op quantifies over) wraps the same functions the driver calls, one constructor per request kind; "
-    "the driver itself still dispatches on the request string",
-    "hypotheses of the guarded theorems (Covered): node ids distinct and no dangling edge (Topo.IdsDistinct/Closed - invariants of reachable "
-    "models, proved for the primitives in C07), uuid freshness (FreshArgs), interface handles refer to ConnectionPoints and carry no undrawn uuid",
+    "Topo.step / TopoOp and Topo.stepX / XOp (the alphabets atomic_op / atomic_xop quantify over) wrap the same functions the driver calls, "
+    "one constructor per request kind; the driver dispatches every building call through them",
+    "hypotheses of the guarded theorems (Covered / CoveredX): node ids distinct and no dangling edge (invariants of reachable models, C07), "
+    "uuid freshness, interface handles refer to ConnectionPoints; for the removals RemoveHyp (every ServicePort owned by exactly one "
+    "service, at most one ServicePort peer per interface, nothing hanging off a ServicePort, no edge between two service-attached "
+    "interfaces).  The state-only guards are evaluated by the Lean driver before every such call of the correspondence run (histogram "
+    "guard:<op>:holds|fails) and 'guard holds, call raised, model changed' is reported as a broken correspondence",
 ]
 ASSUMPTIONS = [
     "single-threaded use; NetworkX backend (the API's default); names are ASCII",
-    "PARTIAL: atomic_op (over Topo.step, which the driver dispatches through) covers add_node, set/unset property, rename, add_interface, "
-    "add_link, connect_interface, add_network_service (topology and node level, ANY number of interfaces, any exception kind), "
-    "add_component / add_storage with library-generated ids; outside Covered: add_component with caller-supplied service/interface ids "
-    "(known finding, addComponent_counterexample), add_facility, add_switch and the removals remove_node / remove_facility / remove_switch / "
-    "remove_link / remove_network_service (topology and node) / remove_component; disconnect_interface and remove_interface are covered",
-    "not modelled (so outside the proved claim): peer/unpeer, add_child_interface/remove_child_interface, PortMirrorService, prune, "
-    "comp_model= form of add_component, interface_labels other than empty Labels()",
-    "'model' = the graph the store holds for the topology's graph id plus the _interfaces cache of the handle the call was made on; "
+    "PARTIAL: atomic_op covers all 22 request kinds of the first alphabet and atomic_xop all 6 of the second (add_child_interface, "
+    "remove_child_interface, peer, unpeer, add_port_mirror_service, add_component(model_type=)) under explicit decidable hypotheses; the one "
+    "call outside Covered is add_component with caller-supplied service/interface ids (known finding, addComponent_counterexample)",
+    "ExperimentTopology.prune is modelled (the marked elements in the order the call visits them come from the run) and checked "
+    "differentially and by the oracle, but has no theorem: it is a sequence of removals, each covered on its own (CoveredX excludes it)",
+    "not modelled (so outside the proved claim): interface_labels other than empty Labels(), the Neo4j backend",
+    "'model' = the graph the store holds for the topology's graph id plus the _interfaces cache(s) of the handle(s) the call was made on; "
     "a handle's cached .name is not part of it",
 ]
-RULE = ("histories of building calls (both flavours, caller-supplied and generated ids) with injected rejected calls: k-th interface "
+RULE = ("histories of building calls of both alphabets (both flavours, caller-supplied and generated ids) with injected rejected calls: k-th interface "
         "bogus/stale/connected/repeated/shared-on-L2PTP, one bad keyword among good ones at each position, duplicate names/ids, "
         "unknown model, stale parents, id collisions of derived ids; non-trivial = the failing call comes after >= 1 successful "
         "mutation of the history and, for list arguments, after >= 1 good element; distinct by op kind x fault x position x outcome kind")
 
 CORPUS = os.path.join(core.CORPUS_DIR, "C09")
+# calls whose guard in Covered / CoveredX is a predicate on the state alone -> the conjuncts the driver's `hyp` request evaluates
+_RM = ["ids", "spOwned", "spPeer1", "spLeaf", "cpEdgeOk"]
+HYP_OPS = {"remove_node": _RM, "remove_facility": _RM, "remove_switch": _RM, "remove_service": _RM, "node_remove_service": _RM,
+           "remove_component": _RM, "remove_link": ["ids", "spLeaf"], "unpeer": ["ids", "spLeaf"], "add_facility": ["ids", "closed"],
+           "add_switch": ["ids", "closed"], "remove_child_interface": ["ids", "spOwned", "spPeer1", "spLeaf"],
+           "disconnect": ["ids"], "ns_remove_interface": ["ids"], "add_link": ["ids"], "peer": ["ids", "closed"]}
 
 
 # --------------------------------------------------------------------------
@@ -371,6 +388,17 @@ def extension_cases(flavour, base):
         {"op": "add_service", "name": "sk", "nstype": "L2Bridge", "ifs": ["h13", "h3"], "kw": []},
         {"op": "node_remove_service", "parent": "h10", "name": "sw1-ns"},
         {"op": "add_service", "name": "sz", "nstype": "L2Bridge", "ifs": ["h14"], "kw": []}]))
+    mark = lambda h: {"op": "set_props", "h": h, "kw": [["reservation_info", ["rinfo", "Failed"]]]}
+    out.append(("prune/nested-marks", kids + [
+        {"op": "add_service", "name": "sk", "nstype": "L2Bridge", "ifs": ["h10", "h7"], "kw": []},               # h13
+        {"op": "add_service", "name": "sq", "nstype": "L2Bridge", "ifs": ["h4"], "kw": []},                      # h14
+        mark("h1"), mark("h2"), mark("h13"), mark("h12"), mark("h11"),
+        {"op": "prune", "state": "Closed"},
+        {"op": "prune", "state": "Failed"},
+        {"op": "prune", "state": "Failed"}]))
+    out.append(("prune/interfaces-only", kids + [
+        {"op": "add_service", "name": "sk", "nstype": "L2Bridge", "ifs": ["h10", "h7"], "kw": []},
+        mark("h10"), mark("h4"), {"op": "prune", "state": "Failed"}]))
     # peering
     two = base + [{"op": "add_service", "name": "sa", "nstype": "L3VPN", "ifs": ["h3"], "kw": []},                 # h10
                   {"op": "add_service", "name": "sb", "nstype": "L3VPN", "ifs": [], "kw": []},                      # h11
@@ -446,11 +474,27 @@ def compare_with_model(steps_by_history, res):
         lines.append(json.dumps({"op": "reset"}))
         index.append(None)
         for si, st in enumerate(steps):
+            if st["op"]["op"] in HYP_OPS:
+                lines.append(json.dumps({"op": "hyp"}))
+                index.append(("hyp", hi, si))
             lines.append(T.lean_line(st["line"]))
             index.append((hi, si))
     replies = LeanDriver("C09").run(lines)
     for ix, rep in zip(index, replies):
         if ix is None:
+            continue
+        if ix[0] == "hyp":
+            # the decidable state hypotheses of atomic_op / atomic_xop, evaluated by the driver in the state before the call
+            st = steps_by_history[ix[1]][ix[2]]
+            v = json.loads(rep)[1]
+            need = HYP_OPS[st["op"]["op"]]
+            holds = all(v[k] for k in need)
+            res.count("guard:%s:%s" % (st["op"]["op"], "holds" if holds else "fails:" + "+".join(k for k in need if not v[k])))
+            if holds and st["outcome"][0] == "err" and st["before"] != st["after"]:
+                # an instance of the theorem: guard held, call raised, yet the implementation's model changed
+                res.disagreements.append({"case": {"history": ix[1], "step": ix[2], "line": st["line"], "ops": st["history"]},
+                                          "impl": "state hypotheses of atomic_op hold in the model state, the call raised and the model changed",
+                                          "model": v})
             continue
         st = steps_by_history[ix[0]][ix[1]]
         m_out, m_snap = T.parse_reply(rep)
